@@ -77,7 +77,12 @@ IsCtl(o) == o.side = "ctl"
 StepModel(o) == IsCtl(o) /\ Explained(st, o, o)
 StepSerial(o) == IF IsCtl(o) THEN st = sst /\ SameOut(o, o.ser)
                  ELSE st = sst /\ o.res = o.ser.res /\ o.snap = o.ser.snap
-C20_SerialEquiv(o) == o.k = "h" => (StepModel(o) \/ StepSerial(o))
+(* A controller step the operators do not explain is decided by the serial re-execution when that
+   one started the step from the same state (same real code, run sequentially): equal = model drift,
+   different = violation.  When the two runs had parted before (the allocator legitimately picks
+   among equally ranked pools by map order) the step is left undecided and reported as such. *)
+Undecided(o) == o.k = "h" /\ IsCtl(o) /\ ~StepModel(o) /\ st # sst
+C20_SerialEquiv(o) == o.k = "h" => (StepModel(o) \/ StepSerial(o) \/ Undecided(o))
 Drift(o) == o.k = "h" /\ IsCtl(o) /\ ~StepModel(o) /\ StepSerial(o)
 
 (* the state after every goroutine has joined is the state the last handler left, and equals the
@@ -86,8 +91,8 @@ C20_FinalState(o) ==
   o.k = "final" =>
      IF IsCtl(o)
      THEN /\ MemOf(o.mem) = st.al
-          /\ (CtrEq(o.ctr, st.L, st.al) \/ (st = sst /\ SameCtr(o.ctr, o.ser.ctr)))
-          /\ (st = sst => MemOf(o.ser.mem) = MemOf(o.mem))
+          /\ (CtrEq(o.ctr, st.L, st.al) \/ st # sst \/ SameCtr(o.ctr, o.ser.ctr))
+          /\ (st = sst => (MemOf(o.ser.mem) = MemOf(o.mem) /\ SameCtr(o.ctr, o.ser.ctr)))
      ELSE o.snap = st /\ (st = sst => o.ser.snap = o.snap)
 
 (* fetchers are atomic reads.  ws = the recorded writes of the item in lock order; write k became
@@ -164,5 +169,7 @@ Judge ==
                                  pre |-> IF o.k = "h" /\ IsCtl(o) THEN st.L ELSE ""])))
   /\ (~Drift(o) \/ PrintT(ToJson([drift |-> "C20.SerialEquiv", line |-> i, w |-> o.w, step |-> o.n, model |-> Diag(o),
                                    pre |-> st.L])))
+  /\ (~Undecided(o) \/ PrintT(ToJson([drift |-> "undecided", line |-> i, w |-> o.w, step |-> o.n, model |-> Diag(o),
+                                       pre |-> st.L])))
   /\ (i < N \/ PrintT(ToJson([done |-> N])))
 =============================================================================
